@@ -66,18 +66,6 @@ func execMultiplicativeExprDivide(context *exprContext, expr *grammar.Grammar) e
 		return err
 	}
 
-	if right == 0 {
-		if left == 0 {
-			context.result = Number(math.NaN())
-		} else if left > 0 {
-			context.result = Number(math.Inf(1))
-		} else {
-			context.result = Number(math.Inf(-1))
-		}
-
-		return nil
-	}
-
 	context.result = Number(left / right)
 	return nil
 }
@@ -89,12 +77,7 @@ func execMultiplicativeExprMod(context *exprContext, expr *grammar.Grammar) erro
 		return err
 	}
 
-	if right == 0 {
-		context.result = Number(math.NaN())
-		return nil
-	}
-
-	context.result = Number(int(left) % int(right))
+	context.result = Number(math.Mod(left, right))
 	return nil
 }
 
